@@ -41,16 +41,30 @@ def isSafeChar (c : Char) : Bool := isSafeNat c.toNat
 /-- `_find_sh_unsafe(arg) is None` : the regex is one negated character class -/
 def allSafe (a : Str) : Bool := a.all isSafeChar
 
-/-- `arg.replace("'", "'\"'\"'")` -/
-def replSq : Str → Str
+/-- `arg.replace("'", splice)` -/
+def replSqWith (splice : Str) : Str → Str
   | [] => []
-  | c :: cs => if c = sq then sq :: dq :: sq :: dq :: sq :: replSq cs else c :: replSq cs
+  | c :: cs => if c = sq then splice ++ replSqWith splice cs else c :: replSqWith splice cs
+
+/-- one iteration of the `for arg in args` loop of `args2sh`, with the text that stands for an embedded
+    single quote (`splice`) and the decision "leave this argument bare" (`bare`) as parameters -/
+def shQuoteWith (bare : Str → Bool) (splice : Str) (a : Str) : Str :=
+  if a.isEmpty then [sq, sq]
+  else if bare a then a
+  else sq :: (replSqWith splice a ++ [sq])
+
+def args2shWith (bare : Str → Bool) (splice : Str) (args : List Str) : Str :=
+  join [' '] (args.map (shQuoteWith bare splice))
+
+/-- the replacement text of `arg.replace("'", …)` in the source, regenerated on every run by evaluating
+    `args2sh(["a'b"])` (`'"'"'` in the code as it is) -/
+def sqSplice : Str := Gen.shSqSplice.map Char.ofNat
+
+/-- `arg.replace("'", "'\"'\"'")` -/
+def replSq (a : Str) : Str := replSqWith sqSplice a
 
 /-- one iteration of the `for arg in args` loop of `args2sh` -/
-def shQuote (a : Str) : Str :=
-  if a.isEmpty then [sq, sq]
-  else if allSafe a then a
-  else sq :: (replSq a ++ [sq])
+def shQuote (a : Str) : Str := shQuoteWith allSafe sqSplice a
 
 /-- `args2sh(args)` (the `sep` parameter is ignored by the code: `' '.join`) -/
 def args2sh (args : List Str) : Str := join [' '] (args.map shQuote)
@@ -59,7 +73,8 @@ def args2sh (args : List Str) : Str := join [' '] (args.map shQuote)
 
 def bs (n : Nat) : Str := List.replicate n bsl
 
-/-- `(" " in arg) or ("\t" in arg) or not arg` -/
+/-- `(" " in arg) or ("\t" in arg) or not arg`: the MINIMAL needs-quotes predicate (what the MS C runtime
+    rules require); the code's own predicate is `cmdNeedQuote` below -/
 def needQuote (a : Str) : Bool := a.contains ' ' || a.contains '\t' || a.isEmpty
 
 /-- the `for c in arg` loop plus the two "remaining backslashes" statements and the closing
@@ -71,8 +86,23 @@ def cmdGo (q : Bool) : Nat → Str → Str
     else if c = dq then bs (n * 2) ++ bsl :: dq :: cmdGo q 0 cs
     else bs n ++ c :: cmdGo q 0 cs
 
-def cmdArg (a : Str) : Str :=
-  if needQuote a then dq :: cmdGo true 0 a else cmdGo false 0 a
+def inRanges (rs : List (Nat × Nat)) (n : Nat) : Bool := rs.any fun r => r.1 ≤ n && n ≤ r.2
+
+/-- a character whose presence makes `args2cmd` wrap the argument in double quotes: the class is
+    regenerated on every run by evaluating `args2cmd([c])` on every code point (blank and tab in the code
+    as it is) -/
+def cmdQuoteChar (c : Char) : Bool := inRanges Gen.cmdQuoteRanges c.toNat
+
+/-- the code's `needquote` -/
+def cmdNeedQuote (a : Str) : Bool := a.isEmpty || a.any cmdQuoteChar
+
+/-- `args2cmd`'s per-argument text with the decision "wrap this argument in double quotes" left open: `qp` -/
+def cmdArgQ (qp : Str → Bool) (a : Str) : Str :=
+  if qp a then dq :: cmdGo true 0 a else cmdGo false 0 a
+
+def args2cmdQ (qp : Str → Bool) (args : List Str) : Str := join [' '] (args.map (cmdArgQ qp))
+
+def cmdArg (a : Str) : Str := cmdArgQ cmdNeedQuote a
 
 /-- the outer loop: `if result: result.append(' ')` then the argument -/
 def cmdLoop : Str → List Str → Str
@@ -317,6 +347,173 @@ def boundsTok (b : Str) : Option (Nat × Nat) :=
     reading only; the normalised text is written and re-read with the defaults -/
 def intRanges (s : Str) (d : Char := ',') (rd : Char := '-') : Option (List (Nat × Nat)) :=
   match parseIntList s d rd with
+  | none => none
+  | some l =>
+    let t := formatIntList l
+    if t.isEmpty then some [] else mapM? boundsTok (splitOn ',' t)
+
+/-! ## acceptance: what it means for ANY text to be a correct quoting of an argument list
+
+The property statement does not fix the text the encoders produce, only how it is read back.
+`shAccepts t args` / `crtAccepts t args` say that the reference lexer reads `t` as exactly `args`
+(the CRT one in all three historical variants).  The correspondence check applies these to the text
+the IMPLEMENTATION produced (driver operations `shv` / `cmdv` / `esav`), so an implementation that
+switches to another correct quoting still corresponds. -/
+
+def shAccepts (t : Str) (args : List Str) : Bool := shSplit t == some args
+
+def crtAccepts (t : Str) (args : List Str) : Bool :=
+  crtSplit .documented t == args && crtSplit .legacy t == args && crtSplit .modern t == args
+
+inductive ShellStyle where
+  | sh | cmd
+deriving DecidableEq, Repr
+
+/-- which reader the text of `escape_shell_args(args, style=style)` is meant for (`none` = ValueError) -/
+def styleOf (style : Str) (win32 : Bool) : Option ShellStyle :=
+  let st := if style.isEmpty then (if win32 then ['c', 'm', 'd'] else ['s', 'h']) else style
+  if st = ['s', 'h'] then some .sh
+  else if st = ['c', 'm', 'd'] then some .cmd
+  else none
+
+/-! ## pieces: a syntactic class of shell words that is always read back literally
+
+A shell word written as a sequence of pieces - a single-quoted part, a backslash-escaped character,
+a double-quoted part without `"` `\` `$` backquote, a bare run of inert characters - denotes the
+concatenation of the piece values (`Props.sh_pieces_sound`). -/
+
+inductive ShPiece where
+  | sgl (s : Str)     -- `'s'`
+  | esc (c : Char)    -- `\c`
+  | dbl (s : Str)     -- `"s"`
+  | bare (s : Str)    -- `s`
+deriving DecidableEq, Repr
+
+def dblPlain (c : Char) : Bool := c != dq && c != bsl && c != '$' && c != '`' && c != nul
+
+def ShPiece.ok : ShPiece → Bool
+  | .sgl s => s.all fun c => c != sq && c != nul
+  | .esc c => c != '\n' && c != nul
+  | .dbl s => s.all dblPlain
+  | .bare s => !s.isEmpty && s.all shLiteral
+
+def ShPiece.render : ShPiece → Str
+  | .sgl s => sq :: (s ++ [sq])
+  | .esc c => [bsl, c]
+  | .dbl s => dq :: (s ++ [dq])
+  | .bare s => s
+
+def ShPiece.value : ShPiece → Str
+  | .sgl s => s
+  | .esc c => [c]
+  | .dbl s => s
+  | .bare s => s
+
+/-- a word = a non-empty list of pieces -/
+def wordRender (w : List ShPiece) : Str := (w.map ShPiece.render).flatten
+def wordValue (w : List ShPiece) : Str := (w.map ShPiece.value).flatten
+def wordOk (w : List ShPiece) : Bool := !w.isEmpty && w.all ShPiece.ok
+
+/-- the decidable side condition on a splice: it is `'` + (pieces denoting one single quote) + `'`,
+    i.e. it closes the quoted part, writes a single quote in some valid way, and reopens -/
+def spliceOk (splice : Str) (ps : List ShPiece) : Bool :=
+  (ps.all ShPiece.ok) && wordValue ps == [sq] && splice == sq :: (wordRender ps ++ [sq])
+
+/-- the decomposition of the regenerated splice into pieces proposed by the translator
+    (kind 0 = `'…'`, 1 = `\c`, 2 = `"…"`, other = bare run); CHECKED by `Proofs.spliceTable_ok` -/
+def splicePieces : List ShPiece := Gen.shSqSplicePieces.map fun p =>
+  let s : Str := p.2.map Char.ofNat
+  match p.1 with
+  | 0 => .sgl s
+  | 1 => .esc (s.headD nul)
+  | 2 => .dbl s
+  | _ => .bare s
+
+/-- the defaults of `delim` / `range_delim` in the signatures of the integer-list functions (regenerated) -/
+def defaultDelim : Char := Char.ofNat Gen.intDelim
+def defaultRangeDelim : Char := Char.ofNat Gen.intRangeDelim
+
+/-! ## multi-character delimiters (round 3)
+
+`format_int_list`, `parse_int_list`, `complement_int_list`, `int_ranges_from_int_list` with `delim` /
+`range_delim` arbitrary NON-EMPTY strings (the functions of `Model.lean` have one-character delimiters). -/
+
+/-- `s.startswith(d)` -/
+def isPre : Str → Str → Bool
+  | [], _ => true
+  | _ :: _, [] => false
+  | a :: as, b :: bs => a = b && isPre as bs
+
+/-- the scanning loop of `s.split(d)`: `k` = characters of a matched separator still to skip,
+    `cur` = the current piece, reversed -/
+def splitGo (d : Str) : Nat → Str → Str → List Str
+  | _, cur, [] => [cur.reverse]
+  | k + 1, cur, _ :: cs => splitGo d k cur cs
+  | 0, cur, c :: cs =>
+    if isPre d (c :: cs) then cur.reverse :: splitGo d (d.length - 1) [] cs
+    else splitGo d 0 (c :: cur) cs
+
+/-- `s.split(d)` for a non-empty separator (leftmost, non-overlapping occurrences) -/
+def splitOnS (d s : Str) : List Str := splitGo d 0 [] s
+
+/-- `d in s` -/
+def containsS (d : Str) : Str → Bool
+  | [] => isPre d []
+  | c :: cs => isPre d (c :: cs) || containsS d cs
+
+def fmtRangeS (rd : Str) (cr : List Nat) : Str := toDigits (lmin cr) ++ rd ++ toDigits (lmax cr)
+
+def fmtStepS (rd : Str) (st : List Str × List Nat) (x : Nat) : List Str × List Nat :=
+  match st.2 with
+  | [] => (st.1, [x])
+  | [a] =>
+    if x = a + 1 then (st.1, [a, x])
+    else if a + 1 < x then (st.1 ++ [toDigits a], [x])
+    else st
+  | a :: b :: r =>
+    if x = (a :: b :: r).getLastD 0 + 1 then (st.1, st.2 ++ [x])
+    else if (a :: b :: r).getLastD 0 + 1 < x then (st.1 ++ [fmtRangeS rd st.2], [x])
+    else st
+
+def fmtFinishS (rd : Str) (st : List Str × List Nat) : List Str :=
+  match st.2 with
+  | [] => st.1
+  | [a] => st.1 ++ [toDigits a]
+  | _ => st.1 ++ [fmtRangeS rd st.2]
+
+def fmtTokensS (rd : Str) (l : List Nat) : List Str := fmtFinishS rd ((isort l).foldl (fmtStepS rd) ([], []))
+
+/-- `format_int_list(int_list, delim=d, range_delim=rd, delim_space=sp)` -/
+def formatIntListS (l : List Nat) (sp : Bool) (d rd : Str) : Str :=
+  join (if sp then d ++ [' '] else d) (fmtTokensS rd l)
+
+def parseTokS (rd : Str) (t : Str) : Option (List Nat) :=
+  if containsS rd t then
+    match mapM? pyInt? (splitOnS rd t) with
+    | some lims => some (rangeIncl (lmin lims) (lmax lims))
+    | none => none
+  else if t.isEmpty then some []
+  else match pyInt? t with
+    | some n => some [n]
+    | none => none
+
+/-- `parse_int_list(range_string, delim=d, range_delim=rd)` (`d`, `rd` non-empty) -/
+def parseIntListS (s : Str) (d rd : Str) : Option (List Nat) :=
+  match mapM? (parseTokS rd) (splitOnS d (strip s)) with
+  | some ls => some (isort ls.flatten)
+  | none => none
+
+def complementIntListS (s : Str) (a : Int) (e : Option Int) (d rd : Str) : Option Str :=
+  match parseIntListS s d rd with
+  | none => none
+  | some l =>
+    let e' : Int := match e with
+      | some e => e
+      | none => if l.isEmpty then a else (lmax l : Int) + 1
+    some (formatIntListS ((List.range e'.toNat).filter fun x => !l.contains x && !decide ((x : Int) < a)) false d rd)
+
+def intRangesS (s : Str) (d rd : Str) : Option (List (Nat × Nat)) :=
+  match parseIntListS s d rd with
   | none => none
   | some l =>
     let t := formatIntList l
